@@ -52,6 +52,8 @@ def run_case(case: dict) -> dict:
         for i in case["premap"]:
             try:
                 pm.add_variable(0x2000 + i, 0)
+                node.rpdo[f"Obj{i}"].raw      # looked up through the node's PDO collection as well
+                node.rpdo[0x2000 + i]
             except Exception:  # noqa
                 pass
         try:
@@ -82,7 +84,7 @@ def run_case(case: dict) -> dict:
                 pm.data = bytearray(op["d"])
             ev.append({"e": "setframe", "d": list(op["d"]), "how": how})
         elif op["op"] == "write":
-            var = pm[op["i"] - 1]
+            var = node.rpdo[f"Obj{op['i'] - 1}"] if op.get("how") == "node" else pm[op["i"] - 1]
             val = pyval(op["v"])
             ok = True
             try:
@@ -91,7 +93,7 @@ def run_case(case: dict) -> dict:
                 ok = False
             ev.append({"e": "write", "i": op["i"], "v": tv(val), "ok": ok, "after": B(pm.data)})
         elif op["op"] == "read":
-            var = pm[op["i"] - 1]
+            var = (node.rpdo[0x2000 + op["i"] - 1] if op.get("how") == "node" else pm[op["i"] - 1])
             try:
                 got = var.raw
                 ev.append({"e": "read", "i": op["i"], "v": tv(got), "ok": True})
